@@ -280,6 +280,88 @@ Proof.
 Qed.
 
 (* ------------------------------------------------------------------ *)
+(* the code's slot (uint8 / uint64 arithmetic) IS the documented slot   *)
+(* (unbounded arithmetic) for every seat 1..255 and the generated steps *)
+(* ------------------------------------------------------------------ *)
+
+Lemma slot_eq_doc p m :
+  params_ok p = true -> member_ok p m = true -> slot p m = doc_slot p m.
+Proof.
+  intros Hp Hm. pose proof (params_ok_ref p Hp) as Hr.
+  unfold params_ok in Hp. unfold member_ok in Hm. unfold slot, doc_slot.
+  destruct (p_kind p) eqn:K.
+  - apply beacon_dkg_slot_val; try lia. rewrite two64_val; lia.
+  - rewrite relay_slot_val; try lia; [|rewrite two64_val; lia].
+    pose proof (relay_first_range (p_entry p) (p_n p) ltac:(lia)) as Hf.
+    rewrite queue_index_val by lia. reflexivity.
+  - apply tbtc_dkg_slot_val; lia.
+  - apply approval_slot_val; lia.
+  - apply inactivity_slot_val; lia.
+Qed.
+
+(* the documented slots grow with the seat: one delay step per seat.  Relay entry slots grow
+   with the queue position instead (next lemma); the result submitter approves first. *)
+Lemma doc_slot_step p a b :
+  p_kind p <> KRelay ->
+  (p_kind p = KApproval -> a <> p_submitter p /\ b <> p_submitter p) ->
+  doc_slot p b - doc_slot p a =
+  (b - a) * match p_kind p with
+            | KBeaconDkg => p_step p
+            | KRelay => 0
+            | KTbtcDkg => dkgResultSubmissionDelayStepBlocks
+            | KApproval => dkgResultApprovalDelayStepBlocks
+            | KInactivity => inactivityClaimSubmissionDelayStepBlocks
+            end.
+Proof.
+  intros Hk Ha. unfold doc_slot. destruct (p_kind p); try congruence; try ring.
+  destruct (Ha eq_refl) as [Ha1 Ha2].
+  destruct (Z.eqb_spec a (p_submitter p)); [contradiction|].
+  destruct (Z.eqb_spec b (p_submitter p)); [contradiction|]. ring.
+Qed.
+
+Lemma slot_monotone p a b :
+  params_ok p = true -> member_ok p a = true -> member_ok p b = true ->
+  p_kind p <> KRelay ->
+  (p_kind p = KApproval -> a <> p_submitter p /\ b <> p_submitter p) ->
+  a < b -> slot p a < slot p b.
+Proof.
+  intros Hp Ha Hb Hk Hs Hlt. rewrite !slot_eq_doc by assumption.
+  pose proof (doc_slot_step p a b Hk Hs) as E.
+  destruct steps_in_range as [S1 [S2 S3]].
+  unfold params_ok in Hp.
+  destruct (p_kind p); try congruence; nia.
+Qed.
+
+Lemma relay_slot_monotone p a b :
+  params_ok p = true -> p_kind p = KRelay -> member_ok p a = true -> member_ok p b = true ->
+  doc_queue_index a (p_entry p mod p_n p) (p_n p) < doc_queue_index b (p_entry p mod p_n p) (p_n p) ->
+  slot p a < slot p b.
+Proof.
+  intros Hp K Ha Hb Hq. rewrite !slot_eq_doc by assumption.
+  unfold doc_slot. rewrite K. unfold params_ok in Hp. rewrite K in Hp. nia.
+Qed.
+
+Lemma approval_submitter_first p m :
+  params_ok p = true -> p_kind p = KApproval -> member_ok p m = true ->
+  slot p (p_submitter p) <= slot p m.
+Proof.
+  intros Hp K Hm.
+  assert (member_ok p (p_submitter p) = true) as Hs.
+  { unfold member_ok. unfold params_ok in Hp. rewrite K in *. lia. }
+  rewrite !slot_eq_doc by assumption. unfold doc_slot. rewrite K.
+  rewrite Z.eqb_refl. destruct steps_in_range as [_ [S2 _]].
+  unfold params_ok in Hp. rewrite K in Hp. unfold member_ok in Hm.
+  destruct (m =? p_submitter p); nia.
+Qed.
+
+(* what goes wrong when the seat delay is multiplied in the uint8 member index type instead of
+   uint64: seat 19 of a tBTC group would get a slot 256 blocks before the documented one *)
+Lemma uint8_delay_is_early :
+  exists m, 1 <= m <= 100 /\
+    u64 (u8 ((m - 1) * dkgResultApprovalDelayStepBlocks)) < (m - 1) * dkgResultApprovalDelayStepBlocks.
+Proof. exists 19. vm_compute. repeat split; congruence. Qed.
+
+(* ------------------------------------------------------------------ *)
 (* executable forms                                                     *)
 (* ------------------------------------------------------------------ *)
 
@@ -306,13 +388,15 @@ Lemma slots_ok_sound p l :
      nth_error l i = Some (a, sa) -> nth_error l j = Some (b, sb) ->
      sa <> sb \/ may_share p a b = true) /\
   (forall m s, In (m, s) l ->
-     earliest p <= s /\ (p_kind p = KRelay -> s < p_ref p + p_timeout p)).
+     earliest p <= s /\ doc_slot p m <= s /\
+     (p_kind p = KRelay -> s < p_ref p + p_timeout p)).
 Proof.
   unfold slots_ok. intros H. apply andb_true_iff in H. destruct H as [Hd Hw].
   split; [apply distinct_slots_sound; exact Hd|].
   intros m s Hin. rewrite forallb_forall in Hw. specialize (Hw (m, s) Hin).
-  cbn [snd] in Hw. unfold slot_in_window in Hw. apply andb_true_iff in Hw.
-  destruct Hw as [He Hr]. split; [lia|]. intros K. rewrite K in Hr. lia.
+  cbn [fst snd] in Hw. unfold slot_in_window in Hw. apply andb_true_iff in Hw.
+  destruct Hw as [He Hr]. apply andb_true_iff in He. destruct He as [He Hd'].
+  split; [lia|]. split; [lia|]. intros K. rewrite K in Hr. lia.
 Qed.
 
 Lemma distinct_slots_model p ms :
@@ -341,8 +425,10 @@ Proof.
   - apply forallb_forall. intros [m s] Hin. apply in_map_iff in Hin.
     destruct Hin as [m' [E Hin]]. inversion E; subst. cbn [snd].
     rewrite forallb_forall in Hm. specialize (Hm m Hin).
-    unfold slot_in_window. apply andb_true_iff. split.
-    + apply Z.leb_le. apply slot_not_before_reference; assumption.
+    unfold slot_in_window. cbn [fst]. apply andb_true_iff. split.
+    + apply andb_true_iff. split.
+      * apply Z.leb_le. apply slot_not_before_reference; assumption.
+      * apply Z.leb_le. rewrite slot_eq_doc by assumption. lia.
     + destruct (p_kind p) eqn:K; try reflexivity.
       pose proof (params_ok_ref p Hp) as Hr.
       unfold params_ok in Hp. rewrite K in Hp. unfold member_ok in Hm. rewrite K in Hm.
@@ -497,27 +583,47 @@ Proof.
 Qed.
 
 Lemma run_ok_model p m pre h :
+  params_ok p = true -> member_ok p m = true ->
   (p_kind p <> KRelay -> no_timeout h = true) ->
   let '(s, (sub, ex)) := run p m pre h in
-  run_ok p pre h {| o_slot := s; o_submit := sub; o_exit := ex |} = true.
+  run_ok p m pre h {| o_slot := s; o_submit := sub; o_exit := ex |} = true.
 Proof.
-  intros Hnt. unfold run.
+  intros Hp Hm Hnt. unfold run.
   destruct (pre && has_precheck (p_kind p)) eqn:Hpre; [reflexivity|].
   unfold run_ok. cbn [o_submit o_slot]. rewrite Hpre. cbn [negb andb].
-  set (s := slot p m).
+  pose proof (slot_eq_doc p m Hp Hm) as Hdoc.
+  set (s := slot p m) in *.
   destruct (p_kind p) eqn:K.
   all: try (destruct (run_simple s 0 h) as [[[i b]|] ex] eqn:R; [|reflexivity];
             pose proof (run_simple_submit _ _ _ _ _ _ R) as [k [Ei [Hn [Hs [Hq Ee]]]]];
             cbn in Ei; subst i; rewrite Hn; cbn [is_head_ge];
             pose proof (firstn_no_terminal_simple s h 0 k b ex (Hnt ltac:(discriminate)) R) as Hf;
             rewrite Nat.sub_0_r in Hf; rewrite Hf;
-            destruct (Z.leb_spec s b); [|lia]; rewrite Z.eqb_refl; reflexivity).
+            destruct (Z.leb_spec s b); [|lia]; rewrite Z.eqb_refl;
+            destruct (Z.leb_spec (doc_slot p m) b); [reflexivity|lia]).
   destruct (run_relay s 0 None h) as [[[i b]|] ex] eqn:R; [|reflexivity].
   destruct (run_relay_submit _ _ _ _ _ _ _ R) as [E|[_ [k [Ei [Hn [Hs Hq]]]]]]; [discriminate|].
   cbn in Ei; subst i. rewrite Hn. cbn [is_head_ge].
   destruct (firstn_no_terminal_relay s h 0 k b ex R) as [Hf _].
   rewrite Nat.sub_0_r in Hf. rewrite Hf.
-  destruct (Z.leb_spec s b); [|lia]. rewrite Z.eqb_refl. reflexivity.
+  destruct (Z.leb_spec s b); [|lia]. rewrite Z.eqb_refl.
+  destruct (Z.leb_spec (doc_slot p m) b); [reflexivity|lia].
+Qed.
+
+(* the model never acts before the documented slot of the seat, whatever the history *)
+Lemma no_action_before_doc_slot p m pre h s i b ex :
+  params_ok p = true -> member_ok p m = true ->
+  run p m pre h = (s, (Some (i, b), ex)) ->
+  s = Some (doc_slot p m) /\ nth_error h i = Some (Head b) /\ doc_slot p m <= b.
+Proof.
+  intros Hp Hm. unfold run.
+  destruct (pre && has_precheck (p_kind p)); [discriminate|].
+  rewrite (slot_eq_doc p m Hp Hm). set (d := doc_slot p m).
+  destruct (p_kind p); intros E; inversion E as [[E1 E2]]; clear E; split; try reflexivity.
+  all: try (pose proof (run_simple_submit _ _ _ _ _ _ E2) as [k [Ei [Hn [Hs _]]]];
+            cbn in Ei; subst i; split; [exact Hn|exact Hs]).
+  destruct (run_relay_submit _ _ _ _ _ _ _ E2) as [E'|[_ [k [Ei [Hn [Hs _]]]]]]; [discriminate|].
+  cbn in Ei; subst i. split; [exact Hn|exact Hs].
 Qed.
 
 Lemma nth_error_firstn_lt {A} (l : list A) : forall i j,
@@ -529,10 +635,10 @@ Proof.
     cbn. apply IH. lia.
 Qed.
 
-Lemma run_ok_sound p pre h s i b ex :
-  run_ok p pre h {| o_slot := s; o_submit := Some (i, b); o_exit := ex |} = true ->
+Lemma run_ok_sound p m pre h s i b ex :
+  run_ok p m pre h {| o_slot := s; o_submit := Some (i, b); o_exit := ex |} = true ->
   (pre && has_precheck (p_kind p) = false) /\
-  exists s', s = Some s' /\ nth_error h i = Some (Head b) /\ s' <= b /\
+  exists s', s = Some s' /\ nth_error h i = Some (Head b) /\ s' <= b /\ doc_slot p m <= b /\
              forall j e, (j < i)%nat -> nth_error h j = Some e -> is_terminal e = false.
 Proof.
   unfold run_ok. cbn [o_submit o_slot]. intros H.
@@ -541,9 +647,10 @@ Proof.
   destruct s as [s'|]; [|discriminate]. exists s'. split; [reflexivity|].
   apply andb_true_iff in H. destruct H as [H Hterm].
   apply andb_true_iff in H. destruct H as [Hge Hb].
+  apply andb_true_iff in Hge. destruct Hge as [Hge Hdoc].
   destruct (nth_error h i) as [[b'| |b']|] eqn:Hn; try discriminate.
   cbn [is_head_ge] in Hge. apply Z.eqb_eq in Hb. subst b'.
-  split; [reflexivity|]. split; [lia|].
+  split; [reflexivity|]. split; [lia|]. split; [lia|].
   intros j e Hj Hnj. apply negb_true_iff in Hterm.
   destruct (is_terminal e) eqn:Ht; [|reflexivity].
   exfalso. rewrite <- Bool.not_true_iff_false in Hterm. apply Hterm.
